@@ -29,8 +29,8 @@ class C11:
             "a sibling layer, in a canary tree beside the layers directory, absolute and relative, dangling and "
             "cyclic), x.toml and SBOM files, a sibling layer y with its own toml/SBOM, canary trees; in a quarter of "
             "the cases <layers>/x is itself a symlink (to a canary directory, the sibling layer, a file, dangling) or a "
-            "plain file or absent. Operations: delete_layer and remove_dir_recursively through the cfg-guarded "
-            "hooks, run as uid 65534. non-trivial = the layer path exists before the call. The environment model "
+            "plain file or absent. Operations: delete_layer, remove_dir_recursively and read_layer through the cfg-guarded "
+            "hooks, recreate through BuildContext::uncached_layer, run as uid 65534. non-trivial = the layer path exists before the call. The environment model "
             "FS.v is validated in the same run by the fsops stream (random primitive std::fs call sequences).")
     trusted_base = [
         "Coq 8.16.1 kernel + vm_compute",
@@ -138,7 +138,7 @@ class C11:
             if rng.random() < 0.1:
                 # the layers directory itself not writable
                 init[1]["m"] = 0o555
-            op = rng.choice(["delete_layer", "delete_layer", "rdr", "recreate"])
+            op = rng.choice(["delete_layer", "delete_layer", "rdr", "recreate", "read_layer"])
             top = next((n for n in init if n["p"] == x), None)
             if op == "recreate" and (top is None or top["k"] != "d"):
                 op = "delete_layer"       # "recreate" is a request for a layer that exists as a directory
@@ -166,7 +166,7 @@ class C11:
     def to_coq(self, c, o):
         r = o["res"]
         res = "ROk" if r["ok"] else (f"(RErrno {r['err']})" if r["err"] in ERRS else "ROther")
-        op = {"delete_layer": "OpDeleteLayer", "rdr": "OpRdr", "recreate": "OpRecreate"}[c["op"]]
+        op = {"delete_layer": "OpDeleteLayer", "rdr": "OpRdr", "recreate": "OpRecreate", "read_layer": "OpReadLayer"}[c["op"]]
         return f"(mkCase {cq_fs(o['pre'])} {cq_path(c['layers'])} {cq_bytes(c['name'])} {op} {res} {cq_fs(o['post'])})"
 
     def nontrivial(self, c, o):
